@@ -199,6 +199,17 @@ def apply_factors(spec, parset):
                 par.y_factor[pop] = yf[pop] if isinstance(yf, dict) else yf
         if p.get("myf") is not None:
             par.meta_y_factor = p["myf"]
+    for kind, store in (("transfers", parset.transfers), ("interactions", parset.interactions)):
+        for t in spec.get(kind, []):
+            if t.get("yf") is None and t.get("myf") is None:
+                continue
+            for src, par in store[t["name"]].items():
+                for dst in par.pops:
+                    yf = t.get("yf")
+                    if yf is not None:
+                        par.y_factor[dst] = yf.get(f"{src}>{dst}", 1.0) if isinstance(yf, dict) else yf
+                if t.get("myf") is not None:
+                    par.meta_y_factor = t["myf"]
     for c in list(spec["comps"]) + list(spec.get("characs", [])):
         if c.get("yf") is not None and c["name"] in parset.pars:
             par = parset.pars[c["name"]]
